@@ -363,7 +363,14 @@ NOT_YET = 'check not built yet in this session (work in progress; the design in 
 
 def main():
     checks = []
+    shared = {'C01', 'C02', 'C03', 'C04', 'C05', 'C06', 'C07', 'C10', 'C11', 'C12', 'C13', 'C14', 'C15', 'C18', 'C19'}
     for pid, (tech, text, note, ref) in sorted(CHECKS.items()):
+        if pid in shared:
+            text += ('  Shared leg (harness/traits.py, DESIGN section 14): the same generated content held lazily from a file, '
+                     'undecoded (mask_and_scale=False, signed and unsigned padding), in dask chunks, derived from an opened file, '
+                     'big-endian, as transposed views, in mixed precision and with narrow tables is observed through this '
+                     'property\'s entry point and must be answered as its plain in-memory holder is; the cells involved are '
+                     'compared with the coordinate model of C06.')
         checks.append({
             'property_id': pid,
             'quick_cmd': f'./check {pid} quick',
